@@ -16,6 +16,9 @@
 // romea
 #include "romea_core_common/geodesy/ECEFConverter.hpp"
 #include "romea_core_common/geodesy/EarthEllipsoid.hpp"
+#ifdef ROMEA_CORE_COMMON_VERIF
+#include "romea_core_common/verif/VerifHooks.hpp"
+#endif
 
 namespace
 {
@@ -65,7 +68,15 @@ GeodeticCoordinates ECEFConverter::toWGS84(const Eigen::Vector3d & ecefPosition)
     atan(Z / (norm * (1.0 - (ellipsoid_.a * ellipsoid_.e2 / sqrt(X * X + Y * Y + Z * Z)))));
 
   double delta = 1.0;
+#ifdef ROMEA_CORE_COMMON_VERIF
+  unsigned long verif_iterations = 0;
+#endif
   while (delta > EPSILON) {
+#ifdef ROMEA_CORE_COMMON_VERIF
+    if (romea_verif_loop_iter("ECEFConverter::toWGS84", ++verif_iterations)) {
+      break;
+    }
+#endif
     double s2 = sin(latitude) * sin(latitude);
     const double eLatitude =
       atan(
